@@ -69,6 +69,15 @@ CHECKS.update({
             'scipy kstest is a contract (symbolic statistic).'),
 })
 
+CHECKS.update({
+    'C03': ('proof', 'symbolic execution of degenerate models, scipy delegation and the KDE CDF/quantile code (Phi uninterpreted, monotone) + SMT',
+            'For symbolic constants, query points, KDE data (<=3 points), weights and bandwidth: degenerate models are exact point masses after fit and after from_dict(to_dict()); scipy-backed families delegate to the right scipy function with the fitted parameters; the KDE CDF is non-decreasing, 0 at its lower bound, <= 1, with the weighted kernel density as derivative; the KDE quantile routes probabilities and solves cdf(x)-u=0 lane-aligned. Two open findings (KDE tails) are reported as KNOWN-FINDING.',
+            "scipy distributions' own laws are trusted; limits at infinity not decided."),
+    'C04': ('proof', "symbolic execution of every family's _fit with scipy estimators as uninterpreted functions + SMT",
+            'For symbolic data (n<=4): Gaussian loc/scale are the sample mean and population standard deviation, Uniform loc/scale are minimum and range, TruncatedGaussian support/optimiser bounds/objective are the documented ones for default and user bounds, MLE families store the parameters fit() returned under the right names, the KDE is built from exactly the training data (or a resample of the requested size) with the requested bandwidth rule and weights.',
+            'The DKW-closeness clause is statistical and not claimed.'),
+})
+
 NOT_APPLICABLE = {}
 
 
